@@ -312,6 +312,17 @@ package main
 //@   assert before New#2: [newServiceOnly] !(svc in newActiveAds) && len(arg0) == 1 && arg0[0] == peer
 //@   assert before Insert#2: [knownService] (svc in newActiveAds) && arg0 == newActiveAds[svc] && len(arg1) == 1 && arg1[0] == peer
 //@   exit assert [stored] c.activeAds == newActiveAds
+// both indexes are built from every Service, every advertisement and every peer: none of the loops is left early
+//@   loop 1 binds svcKey
+//@   loop 1 complete [everyService]
+//@   loop 2 binds ad
+//@   loop 2 complete [everyAdvertisement]
+//@   loop 3 binds peer
+//@   loop 3 complete [everyPeer]
+//@   loop 4 binds ad#2
+//@   loop 4 complete [everyPublishedAdvertisement]
+//@   loop 5 binds svc
+//@   loop 5 complete [everyProducer]
 //@   modifies map[string]sets.Set[string], bgpController.activeAds, map[string]sets.Empty, fresh []string, $held
 // the change notifications (a channel send in the speaker) are delivered after the mutex was released
 //@ func (*bgpController).notifyAdsChanged$1
@@ -623,6 +634,7 @@ package main
 //@   assert before NewSession: [params] arg1.SessionName == p.cfg.Name && arg1.PeerASN == p.cfg.ASN && arg1.MyASN == p.cfg.MyASN && arg1.CurrentNode == c.myNode && arg1.PeerPort == p.cfg.Port && arg1.VRFName == p.cfg.VRF
 //@   exit assert [republished] needUpdateAds ==> called(updateAds)
 //@   ensures [onlyRunnable] forall k int :: 0 <= k && k < len(c.peers) && !PeerRuns(c.peers[k].cfg.NodeSelectors, c.nodeLabels) ==> c.peers[k].session == nil
+//@   loop 1 complete [everyPeer]
 //@   loop 1 binds p
 //@   loop 1 invariant forall k int :: 0 <= k && k < len(c.peers) ==> c.peers[k] != nil && c.peers[k].cfg != nil
 //@   loop 1 invariant forall k int :: 0 <= k && k < iter && !PeerRuns(c.peers[k].cfg.NodeSelectors, c.nodeLabels) ==> c.peers[k].session == nil
@@ -710,6 +722,7 @@ package main
 // no session is leaked: an entry of the old list that is not carried over into the new one and has a session gets Close
 // (the entries carried over are the ones taken out of the old list)
 //@   loop 3 binds p#2
+//@   loop 3 complete [everyLeftoverPeer]
 //@   loop 3 end assert [closedUnlessReused] p != nil && !(p in c.peers) && p.session != nil ==> called(Close)
 //@   loop 1 binds p
 //@   loop 1 invariant newPeers != nil && fresh(newPeers) && (forall k int :: 0 <= k && k < len(newPeers) ==> newPeers[k] != nil && newPeers[k].cfg != nil)
